@@ -185,6 +185,7 @@ theorem run_frame (ρ : List FunDef) : ∀ (f : Nat) (j : Job) (s : St), Frame s
         · exact frame_alloc _ _ _ _
       | assignDecl x e =>
         simp only [run]
+        refine withFnCall_frame _ _ (fun s0 => ?_)
         refine bnd_frame _ _ _ (ih _ _) (fun l t => ?_)
         have htag : Frame t (tagParamAlias e t l) := by
           unfold tagParamAlias
